@@ -203,7 +203,14 @@ def check_message(b, mi, c, res: Result, w, name):
             _check_py(b, fi, inner, bad, "")
 
 
-def _check_py(b, fi, t, bad, what):
+def _check_py(b, fi, t, bad0, what):
+    def bad(kind, detail):
+        # an annotation that resolved to a dataclasses.Field (or contains one) was evaluated in a class body where a
+        # field named like a builtin type shadows that type
+        if "Field(name=" in repr(t):
+            kind = "python-type-shadowed-by-builtin-named-field"
+        bad0(kind, detail)
+
     if fi.wkt == "timestamp":
         if t is not datetime:
             bad("python-type", f"{what}type {t!r}, expected datetime")
